@@ -29,12 +29,13 @@ def run(ctx):
     rot, enc = ex.flags(REPO)
     ctx.extra["keyset_repairs_in_tree"] = {"rotate_only_if_no_update_in_progress": rot, "no_initiate_while_update_in_progress": enc}
     sigs = {s for _, s, _ in g.oracle(lines, r_out)}
-    ctx.oblige("bridge", "decrypt_packet carries the rotate guard (`!update_in_progress`), so gen_monotone_in_pn_f5 / peers_keep_decrypting / "
-               "conf_limit_per_generation (not only their _partial versions) are the statements tied to the code", bool(rot),
+    ctx.oblige("bridge", "decrypt_packet carries the rotate guard (`!update_in_progress`), so peers_keep_decrypting / conf_limit_per_generation / "
+               "active_generation_monotone (not only the _partial versions) are the statements tied to the code", bool(rot),
                "pinned shape: rotate_phase() whenever packet_phase != key_phase (F5)")
     if not rot and "keyset:phase-rotated-back" in sigs:
         ctx.obligations[-1]["explained"] = True
-    ctx.oblige("bridge", "encryption_phase carries the guard (`!key_update_in_progress()`), so gen_monotone_in_pn (full) is the statement tied to the code",
+    ctx.oblige("bridge", "encryption_phase carries the guard (`!key_update_in_progress()`), so gen_monotone_in_pn / gen_monotone_in_pn_system (not only "
+               "gen_monotone_in_pn_partial) are the statements tied to the code",
                bool(enc), "pinned shape: next phase whenever the active key needs an update (F5b)")
     if not enc and "keyset:older-generation-for-higher-pn:update-in-progress" in sigs:
         ctx.obligations[-1]["explained"] = True
